@@ -250,4 +250,81 @@ example : (runText "y = 2; {y : y in 1..3}; y").render = "ok 2\n" ∧
 example : (runText "{x : x in 1..3, x}").render = "err eval" ∧ (runText "{x : x in 5}").render = "err eval" := by
   decide +kernel
 
+/-! ## C12: median -/
+
+/-- **C12 (median) inside the unified evaluator.**  `median` dispatched over the generated registry —
+    `array_median`: elements keyed by magnitude, inserted by key, middle element or the mean of the middle
+    pair through `dispatch("+")`, `dispatch("/")` — is the array fragment's `Arr.arrayMedian` (`C12_median`
+    is about that function):
+
+    1. on an array of stored numbers of ANY kind, floats included (`Canon`: what the evaluator keeps in
+       arrays), literally — same value AND same kind, same error class (empty array: FunctionArgError);
+    2. on an array of quantities of one dimension `d`: the fragment's median of the base-unit magnitudes,
+       carrying `d` (the even case adds two quantities of dimension `d` and divides by the plain 2).
+
+    Both models sort by stable insertion, which is why 1–2 hold up to kind.  What that sort must satisfy to
+    stand for Python's `sorted(…, key=cmp_to_key(ka_cmp))`:
+
+    3. it is a sorted permutation under the exact-value order (for every kind);
+    4. ANY sorted permutation `s` of the array has, position by position, the same VALUES — so the middle
+       element(s), and with them what C12 claims (the median "agrees with exact arithmetic": a statement
+       about values), do not depend on the sorting algorithm;
+    5. on arrays of exact numbers (ints, Fractions) the stored number is determined by its value, so every
+       sorted permutation IS the fragment's sorted list and the median is algorithm-independent outright.
+       Only between elements of EQUAL value and DIFFERENT kind (1/2 next to 0.5) can the order — hence the
+       kind of an odd median, or whether an even median is computed in floating point — depend on the sort
+       being stable; Python's is, the insertion is, and that residue is covered by correspondence (stream
+       `arr`), not by this theorem. -/
+theorem PIPE_median (xs : List Num) (hc : ∀ x ∈ xs, Canon x) (d : List Int) (hd : d.length = nBase) :
+    dispatchTop "median" [.arr (xs.map .num)] [] = liftN (Arr.arrayMedian xs) ∧
+    dispatchTop "median" [.arr (xs.map (fun m => Val.qty m d))] [] = liftW (fun m => Val.qty m d) (Arr.arrayMedian xs) ∧
+    ((Arr.sortNums xs).Perm xs ∧ (Arr.sortNums xs).Pairwise leNum) ∧
+    (∀ s : List Num, s.Perm xs → s.Pairwise leNum → s.map Num.toRat = (Arr.sortNums xs).map Num.toRat) ∧
+    ((∀ x ∈ xs, x.isExact = true) → ∀ s : List Num, s.Perm xs → s.Pairwise leNum → s = Arr.sortNums xs) := by
+  obtain ⟨hp, hs⟩ := sortNums_perm_sorted xs
+  refine ⟨dispatch_median _ xs hc, dispatch_median_qty _ xs hc d hd, ⟨hp, hs⟩, ?_, ?_⟩
+  · intro s hsp hss
+    exact sorted_perm_values s _ (hsp.trans hp.symm) hss hs
+  · intro hex s hsp hss
+    apply sorted_perm_unique_exact s _ (hsp.trans hp.symm) hss hs
+    intro x hx
+    have hx' := hp.mem_iff.mp hx
+    exact canon_of_exact x (hc x hx') (hex x hx')
+
+/-- **C12's median clause at the pipeline**: on exact numbers `qs` (delivered canonically, as the evaluator
+    stores them) `median` returns exactly the middle of the sorted values — the mean of the two middle ones
+    for an even size — for `Arr.sortRat qs`, which is a sorted permutation of `qs` (and by `PIPE_median` 4–5
+    any sorted permutation gives the same); the empty array is a FunctionArgError. -/
+theorem PIPE_median_exact (qs : List Rat) (hne : qs ≠ []) :
+    dispatchTop "median" [.arr ((qs.map Num.canon).map .num)] [] = .ok (.num (Num.canon (
+      if qs.length % 2 = 0 then ((Arr.sortRat qs).getD (qs.length / 2 - 1) 0 + (Arr.sortRat qs).getD (qs.length / 2) 0) / 2
+      else (Arr.sortRat qs).getD (qs.length / 2) 0))) ∧
+    (Arr.sortRat qs).Perm qs ∧ (Arr.sortRat qs).Pairwise (· ≤ ·) ∧
+    dispatchTop "median" [.arr []] [] = raise .funArg := by
+  obtain ⟨hp, hs, hm, _⟩ := C12_median qs hne
+  have hc : ∀ x ∈ qs.map Num.canon, Canon x := by
+    intro x hx
+    obtain ⟨q, _, rfl⟩ := List.mem_map.mp hx
+    exact canon_isCanon q
+  refine ⟨?_, hp, hs, ?_⟩
+  · rw [(PIPE_median (qs.map Num.canon) hc (List.replicate nBase 0) (by simp)).1, hm]; rfl
+  · exact (PIPE_median [] (by simp) (List.replicate nBase 0) (by simp)).1
+
+/-- non-vacuity: stored numbers of all three kinds; a dimension vector of the right length -/
+example : (∀ x ∈ [Num.int 3, .frac (1/2), .int (-4)], Canon x) ∧ (List.replicate nBase (0 : Int)).length = nBase := by
+  refine ⟨?_, by simp⟩
+  intro x hx
+  have h : ∀ y ∈ [Num.int 3, .frac (1/2), .int (-4)], storedNum y = true := by decide +kernel
+  exact simplify_stored x (h x hx)
+
+/-- `median` through the whole pipeline: odd, even (exact mean of the middle pair), quantities in mixed
+    units of one dimension, mixed dimensions, empty -/
+example : (runText "median({3, 1/2, -4})").render = "ok 1/2     (0.5)\n" ∧
+    (runText "median({3, 1, 4, 2})").render = "ok 2 1/2     (2.5)\n" ∧
+    (runText "median({1 m, 30 cm, 2 m}) == 1 m").render = "ok 1\n" ∧
+    (runText "median({1 m, 30 cm}) == 65 cm").render = "ok 1\n" ∧
+    (runText "median({1 m, 2 s})").render = "err incompatible" ∧
+    (runText "median({})").render = "err funarg" := by
+  decide +kernel
+
 end KaVerif
